@@ -147,9 +147,11 @@ def _coords(rng, kind, N, lo, hi):
 def correspondence(ctx):
     p = P()
     rng = ctx.rng
+    deep = ctx.thorough or ctx.widen      # untranslatable items: widen the sweep to the thorough one
+    scale = (lambda q, t: t) if deep else ctx.scale
     _clear()
     subsets = all_subsets(8)
-    extra = random_lists(rng, ctx.scale(40, 400))
+    extra = random_lists(rng, scale(40, 400))
     lists = subsets + extra
 
     # ---------------- 1. seq vs scalar loop on the real code, + Lean sweep model
@@ -160,7 +162,7 @@ def correspondence(ctx):
             if max(ns) > 25 and fam.startswith('Q'):
                 ns = [n for n in ns if n <= 25] or [25]
             k = plist[(li + fi) % len(plist)]
-            kinds = SHAPES if ctx.thorough else [SHAPES[(li + fi + j * 3) % len(SHAPES)] for j in range(2)]
+            kinds = SHAPES if deep else [SHAPES[(li + fi + j * 3) % len(SHAPES)] for j in range(2)]
             for kind in kinds:
                 x = _coords(rng, kind, len(ns), lo, hi)
                 case = {'family': fam, 'params': list(k), 'ns': list(ns), 'shape': list(x.shape), 'layout': kind}
@@ -212,7 +214,7 @@ def correspondence(ctx):
         _clear()
 
     # ---------------- 2. two-index families: pair lists in any order, repeats, vs the scalar functions
-    npl = ctx.scale(60, 600)
+    npl = scale(60, 600)
     tlines, tmeta = [], []
     for kind in ('zern', 'zern_der', 'q2d', 'xy', 'xy_default', 'xy_grid'):
         for li, prs in enumerate(pair_lists(rng, npl, 'zern' if kind.startswith('zern') else ('q2d' if kind == 'q2d' else 'xy'))):
